@@ -245,6 +245,7 @@ var (
 	hookHits  sync.Map // point -> *atomic.Int64
 	hookSalt  atomic.Uint64
 	hookArmed atomic.Bool
+	hookBoost atomic.Bool // cross phase: hold Delete longer between untagging and removing the blob
 )
 
 func hookHandler(point, key string) {
@@ -254,6 +255,10 @@ func hookHandler(point, key string) {
 		return
 	}
 	x := (hookSalt.Load() + uint64(n)*0x9e3779b97f4a7c15 + uint64(len(point))) >> 7
+	if hookBoost.Load() && point == "oci.delete.beforeStorageDelete" && x%3 != 0 {
+		time.Sleep(time.Duration(20+x>>8%300) * time.Microsecond)
+		return
+	}
 	switch x % 4 {
 	case 0:
 	case 1:
